@@ -75,8 +75,8 @@ class LU(Lin):
                 PA = A[P, :]
             else: PA = m['p'].reshape(n, n) @ A
         scale = max(1.0, (np.abs(L) @ np.abs(U)).max())
-        if scale < 1e6 and np.abs(L @ U - PA).max() > s.tol() * 100 * scale: bad.append(f'|L*U-P*A| = {np.abs(L @ U - PA).max():.3g}')
-        if s.recon and scale < 1e6 and np.abs(m['r'].reshape(n, n) - A).max() > s.tol() * 100 * scale: bad.append('reconstruct != A')
+        if scale < 1e6 and np.abs(L @ U - PA).max() > s.bound(n) * scale: bad.append(f'|L*U-P*A| = {np.abs(L @ U - PA).max():.3g}')
+        if s.recon and scale < 1e6 and np.abs(m['r'].reshape(n, n) - A).max() > s.bound(n) * scale: bad.append('reconstruct != A')
         return '; '.join(bad) or None
 
 
